@@ -240,14 +240,20 @@ def run(tier):
     for d in errors:
         if ("panicked" in d["message"]) and not any(s["primary"] and module_of_file(s["file"]) for s in d["spans"]):
             rep.add("W-PANIC", "neg/unattributed panic", "proc-macro panic without a module span: %s" % d["message"])
-    # ---- (c) positive pattern witnesses must expand without panicking (modules c15_*/c16_* of the pos corpus)
-    for cfg in (["plain"] if tier == "quick" else ["plain", "unimock_test"]):
-        ld = load(rep, "pos", cfg)
-        for mod, dl in ld.failures.items():
-            for d in dl:
-                if "panicked" in d["message"] or any("panicked" in (c or "") for c in d["children"]):
-                    rep.add("W-PANIC", "pos/%s panic" % mod, "the macro panicked while expanding witness module `%s`: %s"
-                            % (mod, "; ".join([d["message"]] + [c for c in d["children"] if c][:1])))
+    # ---- (c) every positive witness (hand-written corpus and the mode x option cross product) must expand
+    #      to tokens that parse, without a panic
+    from ..facts import parse_or_panic
+    from ..crossgen import load_cross
+    for cfg in (["plain", "unimock_test"] if tier == "quick" else ["plain", "test", "unimock", "unimock_test"]):
+        for ld in (load(rep, "pos", cfg), load_cross(rep, cfg, tier)):
+            for mod, dl in ld.failures.items():
+                for d in dl:
+                    if parse_or_panic(d):
+                        what = "panicked" if "panicked" in (d["message"] + " ".join(c or "" for c in d["children"])) else "emitted tokens that do not parse"
+                        rep.add("W-PANIC", "%s/%s %s" % (ld.name, mod, "panic" if what == "panicked" else "parse"),
+                                "the macro %s while expanding witness `%s` [%s]: %s"
+                                % (what, mod, cfg, "; ".join([d["message"]] + [c for c in d["children"] if c][:1])))
+                        break
     # ---- (c') script-enumerated module item sequences: the macro's output must parse, and no panic
     from ..modgen import load_modseq
     load_modseq(rep, "plain", tier)
